@@ -341,5 +341,69 @@ theorem scanOutputs_sound (hp : o.p ≤ 256 ^ 32) (labels : List (Bytes × Int))
     exact ⟨x, hx, by rw [scalarSize_eq]; exact decide_eq_true hne⟩
   exact scanLoop_sound L H hp labels hlab bSpend Bspend _ hB _ 0 outputs hlen res h
 
+
+/-! ### BIP375: the sum of the per-input shares is the share of the summed key -/
+
+include L in
+theorem abs_sum_inputShares (keys : List (Int × Bool)) (Bscan : α) :
+    L.abs (sumPoints o (inputShares o keys Bscan))
+      = (keys.map fun k => spInputKey o k.1 k.2).sum • L.abs Bscan := by
+  induction keys with
+  | nil => simp [inputShares, sumPoints, L.abs_zero]
+  | cons k tl ih =>
+    unfold inputShares at ih ⊢
+    simp only [List.map_cons, sumPoints, L.abs_add, L.abs_mul, ih, List.sum_cons, add_smul]
+
+include L in
+theorem prvKeySumAux_sum (keys : List (Int × Bool)) (t r : Int) (h : prvKeySumAux o keys t = .ok r)
+    (P : α) : r • L.abs P = (t + (keys.map fun k => spInputKey o k.1 k.2).sum) • L.abs P := by
+  induction keys generalizing t with
+  | nil => simp only [prvKeySumAux] at h; cases h; simp
+  | cons k tl ih =>
+    obtain ⟨a, tr⟩ := k
+    simp only [prvKeySumAux] at h
+    split at h
+    · cases h
+    · rw [ih _ h, List.map_cons, List.sum_cons]
+      apply smul_eq_of_cast L
+      push_cast [cast_mod L]; ring
+
+include L in
+/-- **T9 (BIP375 shares).** For ANY list of input keys — repeated keys included: two or three inputs
+locked to one key contribute equal shares and every one of them counts — the sum of the per-input
+ECDH shares `aᵢ•B_scan` is `a•B_scan` for `a = prv_key_sum`, so `pub_key_sum` of the shares answers
+(non-zero) and the secret the PSBT roles derive from it, `h•Σ shares`, is the sender's `(h·a)•B_scan`:
+same tweaks `t_k`, same outputs as `output_keys`. -/
+theorem sp_share_sum (keys : List (Int × Bool)) (a : Int) (h : prvKeySum o keys = .ok a)
+    (Bscan : α) (hB : L.abs Bscan ≠ 0) (hh : Int) (hh0 : 0 < hh) (hh1 : hh < o.n) :
+    ∃ S, pubKeySum o (inputShares o keys Bscan) = .ok S ∧ L.abs S = a • L.abs Bscan ∧
+      ∀ k, outputTweak o H (o.mul hh S) k = outputTweak o H (o.mul (hh * a % o.n) Bscan) k := by
+  obtain ⟨ha0, ha1, -⟩ := pubKeySum_of_prvKeySum L keys a h
+  have hsum : L.abs (sumPoints o (inputShares o keys Bscan)) = a • L.abs Bscan := by
+    rw [abs_sum_inputShares L]
+    unfold prvKeySum at h
+    split at h
+    · cases h
+    rename_i total ht
+    split at h
+    · cases h
+    cases h
+    have := prvKeySumAux_sum L keys 0 a ht Bscan
+    rw [zero_add] at this
+    exact this.symm
+  have hne : L.abs (sumPoints o (inputShares o keys Bscan)) ≠ 0 := by
+    rw [hsum]; exact smul_ne_zero L ha0 ha1 _ hB
+  refine ⟨_, ?_, hsum, fun k => ?_⟩
+  · unfold pubKeySum; rw [isZero_false_of_ne L hne]; simp
+  · have hsec : L.abs (o.mul hh (sumPoints o (inputShares o keys Bscan)))
+        = L.abs (o.mul (hh * a % o.n) Bscan) := by
+      rw [L.abs_mul, L.abs_mul, hsum, smul_smul]
+      apply smul_eq_of_cast L
+      push_cast [cast_mod L]; ring
+    have hne2 : L.abs (o.mul hh (sumPoints o (inputShares o keys Bscan))) ≠ 0 := by
+      rw [L.abs_mul]; exact smul_ne_zero L hh0 hh1 _ hne
+    unfold outputTweak
+    rw [cbytes_congr L hsec hne2]
+
 end
 end Btc.C16
